@@ -150,6 +150,15 @@ def m_pin_new(ctx):
     return [(None, o)]
 
 
+@model(r'^Pin(?:::<.*>)?::set$')
+def m_pin_set(ctx):
+    v = ctx.ex.deref_val(ctx.st, ctx.args[0]) if isinstance(ctx.args[0], Ref) else ctx.args[0]
+    if not isinstance(v, Obj) or v.kind != 'pin' or not isinstance(v.fields[('in', 0)], Ref):
+        raise MirError(f'Pin::set on {v!r}')
+    ctx.ex.write(ctx.st, v.fields[('in', 0)].loc, ctx.args[1])
+    return [(None, ())]
+
+
 @model(r'^Pin(?:::<.*>)?::(as_mut|get_mut|get_unchecked_mut|into_inner|get_ref|as_ref|into_ref)$|^Pin::<.*>::map_unchecked_mut')
 def m_pin_as_mut(ctx):
     v = ctx.args[0]
@@ -190,7 +199,10 @@ def m_poll(ctx):
         return [(None, ready(fut.fields[('val', 0)]))]
     if fut.kind == 'thunk':
         alts = fut.attrs['thunk'](ex, st, fut)
-        return [(a[0], (lambda s2, v=a[1]: ready(v(s2) if callable(v) else v)), a[2] if len(a) > 2 else None) for a in alts]
+        def wrap(s2, v):
+            v = v(s2) if callable(v) else v
+            return v if isinstance(v, Obj) and v.ty == 'Poll' and v.discr == 'Pending' else ready(v)      # a thunk may answer Poll::Pending explicitly
+        return [(a[0], (lambda s2, v=a[1]: wrap(s2, v)), a[2] if len(a) > 2 else None) for a in alts]
     body = ex.coroutine_body(fut)
     holder = Obj('fut-holder', kind='cell'); holder.fields[('*', 0)] = fut
     pin = Obj('Pin', kind='pin'); pin.fields[('in', 0)] = Ref(('field', holder, ('*', 0, '?'))); pin.fields[(None, 0)] = pin.fields[('in', 0)]
@@ -573,9 +585,18 @@ def m_option(ctx):
     ex, st = ctx.ex, ctx.st
     op = ctx.callee.rsplit('::', 1)[1]
     o = ex.deref_val(st, ctx.args[0])
+    if op == 'as_pin_mut' and isinstance(o, Obj) and o.kind == 'pin':
+        o = ex.deref_val(st, o.fields[('in', 0)])
     if not isinstance(o, Obj):
         raise MirError(f'Option method on {o!r}')
     A = ctx.args
+    if op == 'as_pin_mut':
+        def mkpin(s2, o2):
+            payload(ex, s2, o2, 'Some')
+            r_ = Ref(('field', o2, ('Some', 0, variant_payload_type(o2.ty, 'Some'))))
+            pin = Obj('Pin', kind='pin'); pin.fields[('in', 0)] = r_; pin.fields[(None, 0)] = r_
+            return some(pin)
+        return on_variant(ex, st, o, {'Some': mkpin, 'None': lambda s2, o2: none()})
     P = lambda s2, o2: payload(ex, s2, o2, 'Some')
     T = lambda b: (lambda s2, o2: z3.BoolVal(b))
     if op in ('is_some', 'is_none'):
